@@ -11,7 +11,7 @@ type Unknown []byte
 
 // DecodeUnknown decodes an Unknown from byte array.
 func DecodeUnknown(b []byte) (Type, error) {
-	return Unknown(b), nil
+	return Unknown(append([]byte(nil), b...)), nil
 }
 
 // Serialize implements the Type interface.
